@@ -678,6 +678,110 @@ func ruleStatsPure(r *Run) {
 				}
 			}
 		}
+		// a value chosen by the presence of a handler and used by code that runs either way (`resp = wire` under
+		// `if statsHandler != nil`, then `w: resp`): as a phi one of whose edges comes out of a stats-only block (or
+		// straight from the stats test), or as a store into a local cell made in a stats-only block and read outside
+		sf := p.StructField("muxOptions", "statsHandler")
+		statsEdge := func(pred, succ *ssa.BasicBlock) bool {
+			if isStats[pred] {
+				return true
+			}
+			if ifi := blockIf(pred); ifi != nil && len(pred.Succs) == 2 && pred.Succs[0] != pred.Succs[1] {
+				if pol, ok := p.statsTest(ifi.Cond, sf); ok {
+					return (pol && pred.Succs[0] == succ) || (!pol && pred.Succs[1] == succ)
+				}
+			}
+			return false
+		}
+		usedOutside := func(v ssa.Value) bool {
+			refs := v.Referrers()
+			if refs == nil {
+				return false
+			}
+			for _, ref := range *refs {
+				if _, isDbg := ref.(*ssa.DebugRef); isDbg {
+					continue
+				}
+				if !isStats[ref.Block()] {
+					return true
+				}
+			}
+			return false
+		}
+		// grpc's stats contract: the context TagRPC / TagConn returns replaces the RPC's context
+		isTagged := func(v ssa.Value) bool {
+			os := p.origins(v, originOpts{local: true})
+			if len(os) == 0 {
+				return false
+			}
+			for _, o := range os {
+				c, ok := o.(*ssa.Call)
+				if !ok || !c.Call.IsInvoke() || (c.Call.Method.Name() != "TagRPC" && c.Call.Method.Name() != "TagConn") {
+					return false
+				}
+			}
+			return true
+		}
+		eachInstr(fn, func(x ssa.Instruction) {
+			switch y := x.(type) {
+			case *ssa.Phi:
+				if isStats[y.Block()] {
+					return
+				}
+				var statsVals, otherVals []ssa.Value
+				for i, e := range y.Edges {
+					if statsEdge(y.Block().Preds[i], y.Block()) {
+						statsVals = append(statsVals, e)
+					} else {
+						otherVals = append(otherVals, e)
+					}
+				}
+				if len(statsVals) == 0 || len(otherVals) == 0 || !usedOutside(y) {
+					return
+				}
+				for _, sv := range statsVals {
+					same := false
+					for _, ov := range otherVals {
+						if sv == ov || p.sameExpr(sv, ov, 0) {
+							same = true
+						}
+					}
+					if !same && !isTagged(sv) {
+						nbad++
+						r.bad(key+"/value-choice:"+y.Comment, y.Pos(), "the value of %s is chosen by whether a stats handler is installed and then used by code that runs either way: the RPC is served with a different object (writer, buffer, flag) when stats are on - a wrapper that hides http.Flusher, for one, stops streamed replies from being flushed", y.Comment)
+						return
+					}
+				}
+			case *ssa.Store:
+				if !isStats[y.Block()] {
+					return
+				}
+				al, ok := y.Addr.(*ssa.Alloc)
+				if !ok || al.Parent() != fn || isTagged(y.Val) {
+					return
+				}
+				readOutside := false
+				eachInstr(fn, func(z ssa.Instruction) {
+					if u, ok := z.(*ssa.UnOp); ok && u.Op == token.MUL && u.X == ssa.Value(al) && !isStats[z.Block()] {
+						readOutside = true
+					}
+				})
+				for _, g := range allFuncsDeep(fn)[1:] {
+					if p.statsGuardedClosure(g, isStats) {
+						continue
+					}
+					eachInstr(g, func(z ssa.Instruction) {
+						if u, ok := z.(*ssa.UnOp); ok && u.Op == token.MUL && p.cellRoot(u.X) == ssa.Value(al) {
+							readOutside = true
+						}
+					})
+				}
+				if readOutside {
+					nbad++
+					r.bad(key+"/value-choice:"+al.Comment, y.Pos(), "%s is assigned only when a stats handler is installed and read by code that runs either way: the RPC is served with a different object when stats are on", al.Comment)
+				}
+			}
+		})
 		if nbad == 0 {
 			r.ok(key, fn.Pos(), "%d stats-only blocks: no return, response write, stream-state write or unjustified slicing", len(blocks))
 		}
@@ -1186,4 +1290,24 @@ func ruleRoleAgree(r *Run) {
 				"FullMethod is not the value registered as the handler's method key: interceptors see another method name than the one dispatched")
 		})
 	}
+}
+
+// statsGuardedClosure: g (or an enclosing closure) is created in one of the given stats-only blocks.
+func (p *Program) statsGuardedClosure(g *ssa.Function, isStats map[*ssa.BasicBlock]bool) bool {
+	for f := g; f != nil && f.Parent() != nil; f = f.Parent() {
+		made := false
+		guarded := true
+		eachInstr(f.Parent(), func(in ssa.Instruction) {
+			if mc, ok := in.(*ssa.MakeClosure); ok && mc.Fn == ssa.Value(f) {
+				made = true
+				if !isStats[in.Block()] && !p.statsGuarded(in.Block()) {
+					guarded = false
+				}
+			}
+		})
+		if made && guarded {
+			return true
+		}
+	}
+	return false
 }
